@@ -539,7 +539,7 @@ def run(ctx):
                 cases.append(c)
     n_corpus = len(cases)
     # ---- generated cases --------------------------------------------------------------------------
-    n_hist = {1: 70, 2: 28, 3: 10} if quick else {1: 1500, 2: 900, 3: 300}
+    n_hist = {1: 70, 2: 28, 3: 10} if quick else {1: 1200, 2: 600, 3: 160}
     n_ctor = 24 if quick else 200
     n_smooth = {1: 30, 2: 20, 3: 10} if quick else {1: 400, 2: 300, 3: 100}
     for dim in (1, 2, 3):
@@ -731,7 +731,8 @@ def run(ctx):
         "tolerance": {"value (Coq)": "2^-34 * (bound of |f| on the grid box and at the point + |function bounds| + 1)",
                       "node positions (Coq)": "2^-46 * (|lo| + |hi| + |delta| + 1)", "calls, exception kind, cached cells, sampled nodes": "exact",
                       "used vs fresh object (search)": "bit for bit",
-                      "search values": "%g * scale" % VAL_TOL, "error bound (search)": "%g * h^2 * sum max|d_a d_b f|" % ERR_MULT},
+                      "search values": "%g * scale (polynomial wrapped functions); sin/exp wrapped functions: %s * scale by dimension "
+                                       "(numerical conditioning of the code's solve + monomial basis, measured)" % (VAL_TOL, SMOOTH_TOL), "error bound (search)": "%g * h^2 * sum max|d_a d_b f|" % ERR_MULT},
         "measured": {k: v for k, v in stats.items() if k.startswith("max_")},
         "partial": ["error bound for twice-differentiable functions: proved are exactness on quadratics in uniform cells and the "
                     "stability bound of the cubic against any affine function; the Taylor remainder is not proved (checked numerically by the search)",
